@@ -88,6 +88,19 @@ func c14ListBase(c *core.Ctx) []string {
 		maxRules = 400
 	}
 	lines, _ := c01Pool(c, 100+c.Rng.Intn(maxRules-100))
+	// Some rules come with their $badfilter twin (every query that meets such
+	// a pair runs the twin filter on rule objects all goroutines share).
+	for i, n := 0, len(lines)/12; i < n; i++ {
+		l := lines[c.Rng.Intn(len(lines))]
+		if l == "" || l[0] == '!' || l[0] == '#' || strings.Contains(l, "##") || strings.Contains(l, " ") || strings.Contains(l, "badfilter") || len(l) > 300 {
+			continue
+		}
+		if j := strings.LastIndexByte(l, '$'); j >= 0 && !strings.HasSuffix(l, "/") {
+			lines = append(lines, l+",badfilter")
+		} else if !strings.HasSuffix(l, "/") {
+			lines = append(lines, l+"$badfilter")
+		}
+	}
 	for i := 0; i < len(lines)/10; i++ {
 		switch c.Rng.Intn(3) {
 		case 0:
@@ -539,6 +552,7 @@ func init() {
 		Rule: "harness built with -race; per round a fresh cold storage (String- or File-backed) and engine (DNS, full Engine, NetworkEngine.MatchAll, cosmetic, or web+cosmetic queries mixed on one Engine) over a generated list of 100..400 (thorough 2000) lines or an easylist slice (in a third of the rounds two lists with identical rule offsets: the list and a twin with other host names), a request multiset of 50..250 (thorough 500) drawn from 5..30 distinct requests (few keys, many threads; URLs repeating indexed windows) partitioned over 2/4/8/16/32 goroutines released by a barrier; " +
 			"schedule perturbation at the hook points (cache miss/insert, between Seek and read, before regexp.Compile, pool get/put) in one of four modes: none, Gosched with probability p, 1..50 us sleep, rendezvous (the first goroutine at a miss/seek/compile point of key K is held until a second one reaches the same point and key); " +
 			"one round in six runs over a compressed hosts file (up to 16 names per line) queried for its names; " +
+			"one generated rule in twelve comes with its $badfilter twin; " +
 			"monitors: race detector reports (log parsed after every round), every query returns (a round without progress whose remaining goroutines are all blocked acquiring a lock is a deadlock), every concurrent answer == the sequential answer of a separate engine over the same bytes (sorted text multisets), no panic; non-trivial = round with cache misses; distinct by the observed global order of miss/insert events (the interleaving signature)",
 		Assumptions: []string{
 			"schedules are those the Go scheduler produces under the perturbation; the evidence reports how many overlapping miss windows and rendezvous were actually observed",
